@@ -215,7 +215,7 @@ func c12Lend(t *testing.T, rec *ev.Rec) {
 				runPaired(c, rec, keys, pc, othersOf(c, owner, 3))
 			}
 		}
-		for _, id := range bids {
+		for bi, id := range bids {
 			b, ok := e.snap().borrows[id]
 			if !ok {
 				continue
@@ -240,11 +240,15 @@ func c12Lend(t *testing.T, rec *ev.Rec) {
 				{name: "lend/borrow-against-foreign-lend", owner: owner, mk: func(a *sim.Acct) sdk.Msg {
 					return lendtypes.NewMsgBorrow(a.Addr.String(), b.LendingID, b.PairID, false, oneIn, one)
 				}},
-				{name: "lend/repay-withdraw", owner: owner, mk: func(a *sim.Acct) sdk.Msg { return lendtypes.NewMsgRepayWithdraw(a.Addr.String(), id) }},
-				{name: "lend/close-borrow", owner: owner, mk: func(a *sim.Acct) sdk.Msg { return lendtypes.NewMsgCloseBorrow(a.Addr.String(), id) }},
 			} {
 				runPaired(c, rec, keys, pc, othersOf(c, owner, 3))
 			}
+			// both of these end the position when the owner's control succeeds: one of them per borrow, alternating
+			last := pairedCase{name: "lend/repay-withdraw", owner: owner, mk: func(a *sim.Acct) sdk.Msg { return lendtypes.NewMsgRepayWithdraw(a.Addr.String(), id) }}
+			if (bi+round)%2 == 0 {
+				last = pairedCase{name: "lend/close-borrow", owner: owner, mk: func(a *sim.Acct) sdk.Msg { return lendtypes.NewMsgCloseBorrow(a.Addr.String(), id) }}
+			}
+			runPaired(c, rec, keys, last, othersOf(c, owner, 3))
 		}
 	}
 }
